@@ -116,6 +116,8 @@ pub fn from_parts(
     unsafe fn alias<T, U>(src: &[T]) -> Vec<U> {
         Vec::from_raw_parts(src.as_ptr() as *mut U, src.len(), src.len())
     }
+    // see dfa.rs: unnamed (future) fields come from an all-zero value
+    let base = unsafe { core::mem::MaybeUninit::<NFA>::zeroed().assume_init() };
     NFA {
         match_kind: mk_from_u8(match_kind),
         states: unsafe { alias::<VState, State>(states) },
@@ -135,6 +137,7 @@ pub fn from_parts(
             start_unanchored_id: sid(special[2]),
             start_anchored_id: sid(special[3]),
         },
+        ..base
     }
 }
 
@@ -146,13 +149,17 @@ pub fn take_prefilter(n: &NFA) -> Option<Prefilter> {
     n.prefilter.clone()
 }
 
-/// (fail target, depth of state i, depth of its fail target, whether i is a
-/// start state or one of the DEAD/FAIL sentinels)
-pub fn fail_and_depth(n: &NFA, i: usize) -> (u32, usize, usize, bool) {
+/// (fail target, recorded depth of state i, recorded depth of its fail target,
+/// whether i is a start state or one of the DEAD/FAIL sentinels, whether the
+/// fail target is the unanchored start state or DEAD). The builder records
+/// `depth` as the index of the byte that created the state, i.e. the true
+/// trie depth minus one for every non-start state (start states: 0).
+pub fn fail_and_depth(n: &NFA, i: usize) -> (u32, usize, usize, bool, bool) {
     let s = &n.states[i];
     let f = s.fail;
     let sentinel = i <= 1
         || i == n.special.start_unanchored_id.as_usize()
         || i == n.special.start_anchored_id.as_usize();
-    (f.as_u32(), s.depth.as_usize(), n.states[f].depth.as_usize(), sentinel)
+    let to_root = f == n.special.start_unanchored_id || f == NFA::DEAD;
+    (f.as_u32(), s.depth.as_usize(), n.states[f].depth.as_usize(), sentinel, to_root)
 }
